@@ -365,7 +365,7 @@ def sig_injective(repo, res):
 
 @rule(
     "NAME-KEY",
-    ["C13", "C19"],
+    ["C13", "C19", "C06"],
     "the naming functions (integral_name, form_name, expression_name), interpreted with an injective stand-in for compute_signature, "
     "give different names whenever any of their parameters differs and names of their own family (integral_ / form_ / expression_); "
     "compute_ir, interpreted with those naming functions, gives distinct names to two forms with equal signature and to two integral "
@@ -374,6 +374,14 @@ def sig_injective(repo, res):
     min_instances=10,
 )
 def name_key(repo, res):
+    """C13/C19 for every finding; C06 only where two kernels of one form end up under one name (explicit props at that site)."""
+    _name_key(repo, res)
+    for f_ in res.findings:
+        if not f_.props:
+            f_.props = ("C13", "C19")
+
+
+def _name_key(repo, res):
     from ..absint import Interp, Node, PyNative, Raised, _PyCall
     from ..lnodes_model import load_classes
     from ..sliceint import value_of
@@ -473,7 +481,7 @@ def name_key(repo, res):
         elif len(set(inames.values())) != len(inames):
             dup = [k_ for k_ in inames if list(inames.values()).count(inames[k_]) > 1]
             res.fail(key, f"integral groups {dup} get the same name: two groups of one form with equal type and subdomain id on different meshes (f1*dx(mesh1) + f2*dx(mesh2)), or "
-                     "the groups of two forms with equal signature, define one C object twice", rep.line(ci.node))
+                     "the groups of two forms with equal signature, define one C object twice", rep.line(ci.node), props=("C13", "C19", "C06"))
         fnames = [x.f["name"] for x in out.f["forms"]]
         if len(set(fnames)) != 2:
             res.fail(key, f"two forms with the same signature in one module are both named {fnames[0]}", rep.line(ci.node))
